@@ -494,6 +494,8 @@ func scriptedComments(c *hk.Ctx) {
 
 // ---------------------------------------------------------------- bursts to the real clients
 
+var burstMethods = []string{"notifications/message", "notifications/progress", "notifications/resources/updated"}
+
 // runClientBursts: many notifications sent back to back (same millisecond) plus several roots/list requests to ONE session
 // of a real client, repeated for fresh sessions: every send that reported success reaches the client's handler exactly
 // once (Streamable: in sending order — its reader handles events one after the other), every request is answered once.
@@ -542,8 +544,12 @@ func runClientBursts(c *hk.Ctx) {
 			for first < len(order) && first < len(sentOK) && order[first] == sentOK[first] {
 				first++
 			}
-			c.Violate(hk.Violation{Fingerprint: "routing:e2e:burst-notifications-out-of-order:" + kind, What: "the real client's handler saw the notifications of a burst in another order than they were sent",
-				Input: map[string]any{"transport": kind, "burst": len(sentOK)}, Observed: map[string]any{"first_divergence_at": first}})
+			lo, hi := max(0, first-2), first+5
+			clipTo := func(a []string) []string { return a[min(lo, len(a)):min(hi, len(a))] }
+			c.Violate(hk.Violation{Fingerprint: "routing:e2e:burst-notifications-out-of-order:" + kind,
+				What:     "the real client's handlers saw the notifications of a burst (three methods interleaved, one handler slow at first) in another order than they were sent on the session's stream",
+				Input:    map[string]any{"transport": kind, "burst": len(sentOK), "methods_in_turn": burstMethods, "slow_handler": burstMethods[1]},
+				Observed: map[string]any{"first_divergence_at": first, "handled_there": clipTo(order), "sent_there": clipTo(sentOK)}})
 		}
 		if rootsCalls != rootsOK {
 			c.Violate(hk.Violation{Fingerprint: "routing:e2e:server-request-not-handled-once:" + kind,
@@ -571,7 +577,18 @@ func runClientBursts(c *hk.Ctx) {
 		cl, err := mcp.NewClient(ts.URL+"/mcp", mcp.Implementation{Name: "client-0", Version: "1"}, mcp.WithClientLogger(hk.QuietLogger{}))
 		if err == nil {
 			cl.SetRootsProvider(countingRoots{"client-0", &calls})
-			cl.RegisterNotificationHandler("notifications/message", handler(rec))
+			// several notification methods on one stream; the handler of one of them is slow at first
+			fast := handler(rec)
+			var slowLeft atomic.Int64
+			slowLeft.Store(6)
+			cl.RegisterNotificationHandler(burstMethods[0], fast)
+			cl.RegisterNotificationHandler(burstMethods[1], func(n *mcp.JSONRPCNotification) error {
+				if slowLeft.Add(-1) >= 0 {
+					time.Sleep(3 * time.Millisecond)
+				}
+				return fast(n)
+			})
+			cl.RegisterNotificationHandler(burstMethods[2], fast)
 			ctx, cancel := context.WithTimeout(context.Background(), ceiling)
 			_, err = cl.Initialize(ctx, &mcp.InitializeRequest{})
 			cancel()
@@ -596,7 +613,7 @@ func runClientBursts(c *hk.Ctx) {
 			var sentOK []string
 			for i := 0; i < nNotif; i++ {
 				nonce := fmt.Sprintf("cb%d-%d", round, i)
-				if f.S.SendNotification(sid, "notifications/message", map[string]interface{}{"nonce": nonce}) == nil {
+				if f.S.SendNotification(sid, burstMethods[i%len(burstMethods)], map[string]interface{}{"nonce": nonce}) == nil {
 					sentOK = append(sentOK, nonce)
 				}
 			}
